@@ -284,7 +284,9 @@ func runCase(c Case, run *vh.Run, idx int) (res result, fatal string) {
 			// premise of the transparency theorem (Props/C12.v c12_batched_rows_lie_in_the_shard); outside it
 			// the matcher's Go equality is not SQL equality (open finding c10-batch-matcher-go-type: e.g. a
 			// pointer to "" on an implicitnull column also matches NULL rows fetched for another caller)
-			if _, tr := sqlh.Transparent(t, c.Filters[i]); !tr && len(c.callerHandle(i).Enforced()) > 0 {
+			// On a tree with C10-fix-2 (the batch function asks the row tester) the oracle applies to EVERY filter
+			// (c12_batched_rows_lie_in_the_shard_repaired).
+			if _, tr := sqlh.Transparent(t, c.Filters[i]); !tr && !sqlh.Fixed && len(c.callerHandle(i).Enforced()) > 0 {
 				run.Hist("rows-in-shard-oracle-skipped:filter-in-known-matcher-class")
 				continue
 			}
@@ -803,6 +805,14 @@ func main() {
 	run := vh.NewRun("C12", o)
 	run.Rule = "one case = (table of a 3-table catalogue, shard and/or dynamic limit, in/out of a transaction, with/without batch.WithBatching, and one DB method incl. SelectOptions and Count / 2-6 concurrent batched Query calls on one handle / the same on 2-3 handles sharing the batch function / 2-4 methods inside one transaction; filters and rows derived from the limit: 50-60% complying, else key dropped / other value / same value with another Go type or pointer / unknown column / empty); non-trivial = some handle of the case enforces a limit and some call reached a limit check (not all rejected for bad input); distinct by JSON of the case"
 	r := vh.NewRng(o.Seed)
+	if fixed, err := sqlh.MatcherAsksTester(); err != nil {
+		run.Fail(-1, "c12-harness-cannot-run", "probe of the batch function: "+err.Error(), nil)
+	} else {
+		sqlh.Fixed = fixed
+		if fixed {
+			run.Hist("tree: batch function asks the row tester (C10-fix-2 applied): rows-in-shard oracle on every batched caller")
+		}
+	}
 	g := &gen{&sqlh.Gen{R: r}}
 	searching := o.Search != ""
 
